@@ -324,6 +324,30 @@ def cmd_setup(args) -> int:
     return 0
 
 
+def cmd_sweep(args) -> int:
+    "no-alarm sweep: run a check's tier under many VERIF_SEEDs (evidence and replays go to a scratch dir)"
+    import subprocess
+    import tempfile
+
+    side = tempfile.mkdtemp(prefix="mdsim-sweep-")
+    bad = 0
+    for prop in args.props:
+        for seed in range(args.first, args.first + args.seeds):
+            env = dict(os.environ, VERIF_SEED=str(seed), MDSIM_EVIDENCE_DIR=os.path.join(side, "evidence"), MDSIM_REPLAY_DIR=os.path.join(VERIF, "replays", "sweep"))
+            t0 = time.time()
+            r = subprocess.run([os.path.join(VERIF, "check"), "run", prop, "--tier", args.tier], capture_output=True, text=True, env=env, cwd=VERIF)
+            last = (r.stdout.strip().splitlines() or ["<no output>"])[-1]
+            flag = "ok" if r.returncode == 0 else "ALARM"
+            if r.returncode != 0:
+                bad += 1
+                for line in r.stdout.splitlines():
+                    if line.startswith(("VIOLATION", "HARNESS-ERROR", "violation candidate", "  minimised")):
+                        print("    " + line[:1500])
+            print(f"sweep {prop} seed={seed} exit={r.returncode} {flag} {time.time() - t0:.0f}s :: {last[:200]}", flush=True)
+    print(f"sweep done: {bad} alarm(s)")
+    return 1 if bad else 0
+
+
 def main(argv=None) -> int:
     ap = argparse.ArgumentParser(prog="check")
     sub = ap.add_subparsers(dest="cmd", required=True)
@@ -338,6 +362,12 @@ def main(argv=None) -> int:
     p = sub.add_parser("replay")
     p.add_argument("path")
     p.set_defaults(fn=cmd_replay)
+    sw = sub.add_parser("sweep")
+    sw.add_argument("props", nargs="+")
+    sw.add_argument("--seeds", type=int, default=50)
+    sw.add_argument("--first", type=int, default=0)
+    sw.add_argument("--tier", default="quick")
+    sw.set_defaults(fn=cmd_sweep)
     st = sub.add_parser("selftest-determinism")
     st.add_argument("props", nargs="*")
     st.add_argument("--runs", type=int, default=None)
